@@ -159,6 +159,15 @@ def check(case):
         elif out["status"] == "infeasible":
             res.fail("dc-optimum/converged-on-infeasible-problem/%s" % ("+".join(sorted(shapes)) or "other"), res_cost=got,
                      why=out.get("why"))
+    live = gen.energized_buses(net)
+    zombies = [int(b) for b in net.bus.index if b not in live and not math.isnan(float(net.res_bus.at[b, "va_degree"]))]
+    if zombies:
+        # buses behind an out-of-service bus are optimised as an island without angle reference (see C16): one signature
+        res.label("dead-island-kept-alive")
+        if res.failures:
+            detail = [[sg, d] for sg, d in res.failures][:3]
+            del res.failures[:]
+            res.fail("dead-island-kept-alive", buses=zombies[:6], other_failures=detail)
     if dead_dc and res.failures:
         detail = [[sg, d] for sg, d in res.failures][:4]
         del res.failures[:]
